@@ -1,6 +1,6 @@
 """C12 — scores are BM25 over the searcher's statistics and explain agrees: layering and shared arithmetic."""
 from ..model import (trace_through, trace_back, op_local, op_place, place_local, is_bare, provenance, proj_fields)
-from ..rules import (rule_precede, rule_must_pass, get_body, calls_to, site, short, rule_who_may_call, option_root, return_defs, whole_iteration)
+from ..rules import (rule_precede, rule_must_pass, get_body, calls_to, site, short, rule_who_may_call, option_root, return_defs, whole_iteration, trace_back_deep)
 from .. import codetab as ct
 
 Q = "tantivy::query::"
@@ -368,8 +368,8 @@ def r2(rep, prog):
         cs = calls_to(prog, body, {callee})
         okk = False
         for b, t in cs:
-            a1 = trace_back(body, op_local(t["args"][1])) if op_local(t["args"][1]) is not None else []
-            a2 = trace_back(body, op_local(t["args"][2])) if op_local(t["args"][2]) is not None else []
+            a1 = trace_back_deep(body, op_local(t["args"][1])) if op_local(t["args"][1]) is not None else []
+            a2 = trace_back_deep(body, op_local(t["args"][2])) if op_local(t["args"][2]) is not None else []
             okk = bool(a1) and a1[-1][0] == "call" and a1[-1][1].endswith("TermScorer::fieldnorm_id") and bool(a2) and a2[-1][0] == "call" and a2[-1][1].endswith("term_freq")
         rep.check(okk, R, "TermScorer::%s feeds fieldnorm_id() and term_freq()" % what, "%s(self.fieldnorm_id(), self.term_freq())" % callee.split("::")[-1],
                   "TermScorer::%s does not pass its fieldnorm_id() / term_freq() to Bm25Weight::%s" % (what, callee.split("::")[-1]), site=body.span)
